@@ -315,8 +315,21 @@ pub fn sanitise(mut p: Program, ctx: usize) -> Option<Program> {
                     cs.remove(0);
                 }
             }
-            // ns-plain-first at the very start; conservative at the start of continuation lines
-            if i == 0 || at_line_start {
+            // ns-plain-first at the very start. A continuation line starts with any ns-plain-char
+            // (s-ns-plain-next-line): indicators, `- `, `? `, `---`, `...` are content there. At the
+            // root (continuation at column 0) the conservative rule stays, because a line that
+            // starts with `- `, `? `, `---`, `...` or `%` at column 0 is structure.
+            let free_line_start = at_line_start && ctx_cont(ctx) > 0;
+            if free_line_start {
+                // ':' needs a following safe character; a leading '#' was removed above
+                loop {
+                    if cs.first() == Some(&'#') || (cs.first() == Some(&':') && (cs.len() == 1 || matches!(cs[1], ':' | '#') || (flow && is_flow_ind(cs[1])))) {
+                        cs.remove(0);
+                    } else {
+                        break;
+                    }
+                }
+            } else if i == 0 || at_line_start {
                 loop {
                     match cs.first() {
                         Some(c) if matches!(c, ',' | '[' | ']' | '{' | '}' | '#' | '&' | '*' | '!' | '|' | '>' | '\'' | '"' | '%' | '@' | '`') => {
